@@ -179,6 +179,18 @@ CHECKS.update({
         design='DESIGN.md §4 C09', engine='worlds+refmodel'),
 })
 
+CHECKS.update({
+    'C03': dict(
+        technique='exhaustive all-pairs injectivity check by bucketing the real storage keys of a bounded family of computations against reference computation descriptors',
+        text='The real storage key of every member of a finite family is computed on real chains and bucketed by (task, key); a bucket holding two members with different reference '
+             'descriptors is a collision (this decides all N(N-1)/2 pairs). Family: ~3.6e3 (quick) / ~5e4 (thorough) JSON-like values over 21 atoms (incl. quote and separator attack '
+             'strings, bool/int/float/None look-alikes) closed under lists and dicts, each in a parameter of the task itself and, through the key chain, of inputs at distance 1 and 2; '
+             'values as (nested) arguments of parameter objects; a base/subclass parameter-object pair; two-parameter separator attacks with a not-persisted default; differing wirings '
+             '(swapped upstreams through two namespaces, optional/pattern inputs present or absent, diamonds). Collisions are attributed to the key text when the hashed texts coincide.',
+        note='sha256[:32] assumed collision-free. Known finding K1 (unescaped quotes in str leaves) is matched by its signature only; any other collision is reported.',
+        design='DESIGN.md §4 C03', engine='enumvals+worlds+refmodel'),
+})
+
 PENDING_REASON = 'check not built yet in this round (planned per DESIGN.md §4; technique applies)'
 
 
